@@ -462,6 +462,9 @@ def c09(sc, tr):
         mode = 'bf' if opts.get('bf') else 'lp'
         res['probes']['session:' + mode] = \
             res['probes'].get('session:' + mode, 0) + 1
+        if any(r.get('backend_fault') for r in sub.rounds):
+            res['probes']['real-backend-fault'] = 1
+            continue
         exc = oracles.first_exception(sub)
         if exc is not None:
             e = exc['exc']
